@@ -266,10 +266,10 @@ func ruleTK(parts ...string) Rule {
 					// guards: len(l.word) == 1, *ast.Lit, and a preceding digit loop
 					one, lit := false, false
 					for _, gd := range guardsOf(c.P, r, nil) {
-						if gd.pos && strings.Contains(exprStr(gd.cond), "len(l.word) == 1") {
+						if gd.pos && isLenFieldEq(info, gd.cond, "parser", "lexer", "word", 1) {
 							one = true
 						}
-						if id, ok := ast.Unparen(gd.cond).(*ast.Ident); ok && gd.pos && id.Name == "ok" {
+						if gd.pos && okVarOfAssert(c.P, raw, gd.cond, "*ast.Lit") {
 							lit = true
 						}
 					}
@@ -309,14 +309,13 @@ func ruleTK(parts ...string) Rule {
 						if !gd.pos {
 							continue
 						}
-						s := exprStr(gd.cond)
-						if strings.Contains(s, "len(l.word) == 1") {
+						if isLenFieldEq(g.Info(), gd.cond, "parser", "lexer", "word", 1) {
 							one = true
 						}
-						if id, ok := ast.Unparen(gd.cond).(*ast.Ident); ok && id.Name == "ok" {
+						if okVarOfAssert(c.P, g, gd.cond, "*ast.Lit") {
 							lit = true
 						}
-						if strings.Contains(s, ".isName(") {
+						if c.callsFunc(g.Info(), gd.cond, c.fn("parser.(*lexer).isName")) {
 							name = true
 						}
 					}
@@ -448,7 +447,7 @@ func ruleLX(parts ...string) Rule {
 						return true
 					}
 					be, ok := ast.Unparen(ifs.Cond).(*ast.BinaryExpr)
-					if !ok || be.Op != token.NEQ || exprStr(be.X) != "err" || !isNilIdent(info, be.Y) {
+					if !ok || be.Op != token.NEQ || !isNilIdent(info, be.Y) || !isErrorType(info.Types[be.X].Type) {
 						return true
 					}
 					// the first read-error test of the body loop
@@ -463,7 +462,7 @@ func ruleLX(parts ...string) Rule {
 						key := hd.Name + "|EOF return only when nothing is pending"
 						ok := false
 						for _, gd := range guardsOf(c.P, r, ifs) {
-							if !gd.pos && strings.HasSuffix(exprStr(gd.cond), ".heredoc.exists()") {
+							if !gd.pos && c.callsFunc(info, gd.cond, c.fn("parser.(*heredoc).exists")) {
 								ok = true
 							}
 						}
